@@ -1,4 +1,4 @@
-import TinysetModel.Model.Ops
+import TinysetModel.Model.Alloc
 import TinysetModel.Generated.Consts
 /-! The constants the hand-written model uses are the ones the translator read off the current
 source.  If the source changes one of them, the corresponding theorem stops checking. -/
@@ -17,6 +17,15 @@ theorem tagMask_le_align32 : ∀ p ∈ Gen.tagMasks32, p.2 + 1 ≤ Gen.layout32.
 
 theorem layout64_match : (headerBytes cfg64, elemBytes cfg64) = (Gen.layout64.1, Gen.layout64.2.1) := by decide
 theorem layout32_match : (headerBytes cfg32, elemBytes cfg32) = (Gen.layout32.1, Gen.layout32.2.1) := by decide
+
+/-- the allocator is called directly in exactly the functions the event reading (`Model/Alloc.lean`) accounts
+    for — four zeroed requests, one release in `Drop`, one in-place resize in `SetU32` — and nowhere in the
+    iterator, wrapper and operator files; no `mem::forget` / `ManuallyDrop` / `Box::from_raw` anywhere -/
+theorem allocSites64_match : Gen.allocSites64 = allocSites true := by decide
+theorem allocSites32_match : Gen.allocSites32 = allocSites false := by decide
+theorem allocSitesOther_none : Gen.allocSitesOther = [] := by decide
+/-- the alignment passed to the allocator -/
+theorem align_match : (alignBytes cfg64, alignBytes cfg32) = (Gen.layout64.2.2, Gen.layout32.2.2) := by decide
 
 theorem detRng_match (cap bits : Nat) :
     (detRng.draw () cap bits).1 = ((cap * Gen.detMul1) % 2 ^ 64) ^^^ ((bits * Gen.detMul2) % 2 ^ 64) := rfl
